@@ -50,8 +50,9 @@ ASSUMPTIONS = [
     "leaves in consume(make()) workflows (a Staging value pickles the hashes of its two inner Files, which the model's "
     "consumer key does not carry)",
     "the oracle demands: nothing raised; at most one execution per run; a replayed result holds only values whose recorded "
-    "hash is their current hash and whose named files are, by the harness's own bookkeeping of size/mtime/bytes/"
-    "membership, as they were when the result was computed; a new result's hashes are current; the downstream answer "
+    "hash is their current hash; independently of redun's hash functions, a replay happens only while the files named by "
+    "the returned values are (by the harness's own bookkeeping of size/mtime/bytes/membership) in a state in which the "
+    "task once ran, and after an execution the written files hold the task's bytes; a new result's hashes are current; the downstream answer "
     "equals the harness's own observation of the current files. It does not demand a replay when everything is valid "
     "(the model decides that, and the correspondence compares it — including the shallow-mode re-executions of "
     "shallow_rerun_remark)",
@@ -227,7 +228,7 @@ def gen_case(rng, nsteps):
         else:
             data = rng.choice(DATA)
             same = [d for q, d in ws if q == p]
-            if same and rng.random() < 0.4:
+            if same and rng.random() < 0.55:
                 data = same[0] if rng.random() < 0.5 else bytes(reversed(same[0]))   # same bytes / same size
             steps.append(("xwrite", p, data, t))
     clock[0] += 1
@@ -276,6 +277,19 @@ CORPUS = [
       ("xremove", ("d1", "a")), ("run", 2004), ("xwrite", ("f",), b"abcd", 2004), ("run", 2005), ("run", 2006)]),
     (S([(("g",), b"ab")], [("file", "plain", ("g",))], "single", "shallow", True),
      [("run", 2000), ("xtrunc", ("g",), 2000), ("run", 2001), ("xwrite", ("g",), b"ab", 2000), ("run", 2002), ("run", 2003)]),
+    # content-hashed collections: the member path set stays, the content changes (same size / truncate / delete+recreate)
+    (S([(("d1", "a"), b"ab"), (("d1", "b"), b"abc")], [("fset", "content", ("d1",), False)], "single"),
+     [("run", 2000), ("run", 2001), ("xwrite", ("d1", "a"), b"ba", 2000), ("run", 2002), ("run", 2003), ("xtrunc", ("d1", "b"), 2003),
+      ("run", 2004), ("xremove", ("d1", "a")), ("xwrite", ("d1", "a"), b"zz", 2004), ("run", 2005), ("run", 2006)]),
+    (S([(("d2", "a"), b"ab"), (("d2", "s", "c"), b"abc")], [("plain", 1), ("fset", "content", ("d2",), True)], "nested", "shallow", True),
+     [("run", 2000), ("xwrite", ("d2", "s", "c"), b"cba", 2000), ("run", 2001), ("run", 2002), ("xremove", ("d2", "a")),
+      ("xwrite", ("d2", "a"), b"x", 2002), ("run", 2003), ("xtrunc", ("d2", "a"), 2003), ("run", 2004), ("run", 2005)]),
+    (S([(("d3", "a"), b"ab"), (("d3", "c"), b"abc")], [("dir", "content", ("d3",)), ("fset", "content", ("d3",), False)], "dict", "full", True),
+     [("run", 2000), ("xwrite", ("d3", "c"), b"xyz", 2000), ("run", 2001), ("xtrunc", ("d3", "a"), 2001), ("run", 2002),
+      ("xremove", ("d3", "c")), ("xwrite", ("d3", "c"), b"abcd", 2002), ("run", 2003), ("run", 2004)]),
+    (S([(("f",), b"ab"), (("g",), b"abc")], [("staging", False, "content", ("f",), ("g",)), ("file", "content", ("f",))], "tuple"),
+     [("run", 2000), ("xwrite", ("f",), b"ba", 2000), ("run", 2001), ("xremove", ("g",)), ("xwrite", ("g",), b"q", 2001), ("run", 2002),
+      ("xtrunc", ("f",), 2002), ("run", 2003), ("run", 2004)]),
     # one invalid leaf deep in a container is enough
     (S([(("f",), b"a"), (("g",), b"b")], [("file", "imm", ("f",)), ("plain", 3), ("file", "plain", ("g",))], "nested", "shallow"),
      [("run", 2000), ("run", 2001), ("xtrunc", ("g",), 2001), ("run", 2002), ("run", 2003)]),
@@ -363,7 +377,8 @@ def run_case(ctx, w, sched, case_id, spec, steps, replies, label):
     n = len(spec["outs"])
     it = iter(replies)
     next(it)
-    seen = {}              # (leaf spec, recorded digest) -> the harness's own state key when that result was computed
+    exec_states = set()    # the harness's own view (size/mtime/bytes/membership, no redun hash involved) of what the returned
+                           # values name, taken right after each execution of the task
     nruns = 0
     diverged = False
     tk = tasks()
@@ -405,22 +420,29 @@ def run_case(ctx, w, sched, case_id, spec, steps, replies, label):
                 if executed > 1 or cexecuted > 1 or (nruns == 1 and executed != 1):
                     ctx.violation("C04-wrong-execution-count", "the task ran %d times in one run (first run: %s)"
                                   % (executed, nruns == 1), case=case, expected="0 or 1 (first run: 1)", actual=out, kind="history")
+                named = tuple(World.state_keys(sp, snap)[1] if sp[0] != "plain" else None for sp in spec["outs"])
+                if executed:
+                    exec_states.add(named)
+                    wrong = [p for p, d in spec["writes"] if snap.get(tuple(p), (None,))[0] != d]
+                    if wrong:
+                        ctx.violation("C04-reexecution-did-not-restore-outputs", "after the task ran, %s do(es) not hold what the "
+                                      "task writes" % wrong[:3], case=case, expected="task outputs", actual=out, kind="history")
+                elif named not in exec_states:
+                    changed = [sp for sp, a in zip(spec["outs"], named)
+                               if sp[0] != "plain" and all(e[spec["outs"].index(sp)] != a for e in exec_states)]
+                    ctx.violation("C04-altered-output-replayed", "a cached result was replayed although the files named by %s were "
+                                  "deleted or altered (size / mtime / bytes / membership) and are in a state in which the task never "
+                                  "ran" % (changed[:2] or "the returned values",), case=case, expected="re-execution", actual=out,
+                                  kind="history")
                 if leaves is not None:
                     for o, sp in zip(leaves, spec["outs"]):
                         if not is_ext(w, o):
                             continue
-                        cur_key = World.state_keys(sp, snap)[1]
                         if leaf_hash(o) != w.hash_of(w.fresh(o)):
                             ctx.violation("C04-replayed-invalid-result" if executed == 0 else "C04-reexecuted-result-not-current",
                                           "the %s result holds %s whose recorded hash is not its current hash"
                                           % ("replayed" if executed == 0 else "new", sp), case=case,
                                           expected=w.r_hash(w.hash_of(w.fresh(o))), actual=w.r_hash(leaf_hash(o)), kind="history")
-                        if executed:
-                            seen.setdefault((sp, leaf_hash(o)), cur_key)
-                        elif seen.get((sp, leaf_hash(o)), cur_key) != cur_key:
-                            ctx.violation("C04-altered-output-replayed", "a cached result was replayed although what %s names was "
-                                          "deleted or altered (size / mtime / bytes / membership) since it was computed" % (sp,),
-                                          case=case, expected="re-execution", actual=out, kind="history")
                 else:
                     want = [expected_observation(sp, snap) for sp in spec["outs"]]
                     if list(res) != want:
@@ -450,8 +472,6 @@ def run_case(ctx, w, sched, case_id, spec, steps, replies, label):
             diverged = True
             ctx.mismatch("C04 step %d %s: model and real scheduler disagree" % (i, k), case=case,
                          model={"reply": m_out, "fs": m_fs}, impl={"reply": out, "fs": fs})
-        if diverged:
-            break
 
 
 def run_cases(ctx, cases):
